@@ -20,4 +20,18 @@ for cfg in registry.ALL_CONFIGS:
                                   "impl_trait": f.get("impl_trait"), "configs": []})
         e["configs"].append(cfg)
 json.dump(out, open(os.path.join(core.VERIF, "tables", "fn_names.json"), "w"), indent=0, sort_keys=True)
+fields = {}
+for cfg in registry.ALL_CONFIGS:
+    data = core.extract(cfg)
+    if cfg == "alloc":
+        data = core.std_paths(data)
+    for path, a in data["adts"].items():
+        if "unicodetables" in (a.get("file") or ""):
+            continue
+        for v in a.get("variants", []):
+            fl = [[f["name"], f["ty"]] for f in v.get("fields", []) if not f["name"].isdigit()]
+            if fl:
+                fields.setdefault(path, {}).setdefault(v["name"], fl)
+json.dump(fields, open(os.path.join(core.VERIF, "tables", "field_names.json"), "w"), indent=0, sort_keys=True)
+print("recorded fields of", len(fields), "types")
 print("recorded", len(out), "functions")
